@@ -611,6 +611,38 @@ let run_case op t =
       let a, sobs = run_s stateless tracked n init_astate ops in
       let spec = join ([ "ok" ] @ obs_s names sobs @ [ log_s a.acalls; "live"; "0"; "bad"; "0" ]) in
       (model, spec)
+  | "amp" ->
+      (* object identity under an overloaded unary operator&: model = ModelAddr.arun_m (takes the address with
+         etl::addressof, parametric in what operator& answers), spec = SpecAddr.arun_s (never sees operator&) *)
+      let a = List.init 3 (fun _ -> next_int t) in
+      let vals = List.init 3 (fun _ -> next_z t) in
+      let n = next_int t in
+      let raw = List.init n (fun _ -> let c = next_int t in let p = next_int t in let q = next_int t in let z = next_z t in (c, p, q, z)) in
+      let amp i = nat_of_int (List.nth a (min (int_of_nat i) 2)) in
+      let far = nat_of_int 99 in
+      let nn i = if i < 0 then far else nat_of_int i in
+      let op_of (c, p, q, z) =
+        let p = nn p and q = nn q in
+        match c with
+        | 0 -> ("ref", ARef (p, q)) | 1 -> ("ctor", ACtor (p, q)) | 2 -> ("copy", ACopyW (p, q)) | 3 -> ("refw", ARefW (p, q))
+        | 4 -> ("write", AWrite (p, z)) | 5 -> ("conv", AConv (p, z)) | 6 -> ("call", ACall (p, z))
+        | 7 -> ("cref", ACref (p, z)) | 8 -> ("crefw", ACrefW (p, z)) | 9 -> ("view", AView (p, z))
+        | 10 -> ("cview", ACView (p, z)) | 11 -> ("vieww", AViewW (p, z)) | 12 -> ("own", AOwn (p, z))
+        | 13 -> ("ownw", AOwnW (p, z)) | 14 -> ("invref", AInvRef (p, z)) | 15 -> ("invptr", AInvPtr (p, z))
+        | 16 -> ("invobj", AInvObj (p, z)) | 17 -> ("invw", AInvW (p, z)) | 18 -> ("bindref", ABindRef (p, z))
+        | 19 -> ("bindobj", ABindObj (p, z)) | 20 -> ("bindw", ABindW (p, z)) | 21 -> ("bindarg", ABindArg (p, z))
+        | 22 -> ("tup", ATup (p, q, z)) | 23 -> ("pair", APair (p, q, z)) | 24 -> ("swap", ASwap (p, q))
+        | 25 -> ("apply", AApply (p, q, z))
+        | _ -> ("skip", ACall (far, z)) in
+      let named = List.map op_of raw in
+      let names = List.map fst named and ops = List.map snd named in
+      let pr (s, outs) =
+        join ([ "ok" ]
+              @ List.concat (List.map2 (fun nm o -> match o with Some l -> nm :: List.map str_of_z l | None -> [ "skip" ]) names outs)
+              @ [ "objs" ] @ List.concat (List.map (fun o -> [ str_of_z o.ov; str_of_z o.oc ]) s.aobjs)
+              @ [ "rw" ] @ List.map (function Some r -> string_of_int (int_of_nat r) | None -> "-1") s.arws) in
+      let s0 = ainit vals (nat_of_int 2) in
+      (pr (arun_m amp s0 ops), pr (arun_s s0 ops))
   | _ -> raise Not_found
 
 let () = main run_case
